@@ -31,6 +31,9 @@ Inductive item :=
 | IField (k : fieldk) (v : str)     (* "AC  v" / "ID  v" / "NA  v" / "DE  v" *)
 | ISkip (k : skipk) (v : str)       (* "BA" / "BS" / "BF" / "CO" followed by the text v (not shown by Record) *)
 | IXX                               (* an "XX" separator line *)
+| ICC (t : str) (ts : list str)     (* a run of comment lines "CC" ++ text (not shown by Record) *)
+| IDT (day month year : str) (created : bool) (author : str)
+                                    (* "DT  dd.mm.yyyy (created|updated); author." (not shown by Record) *)
 | IMatrix (po : bool)               (* the header is spelled "PO" (else "P0") *)
           (sep : str)               (* blanks/tabs written before every symbol and every count *)
           (syms : str)              (* symbol letters of the header, in file order *)
@@ -68,6 +71,11 @@ Definition print_item (eol : str) (it : item) : str :=
   | IField k v => [fst (field_tag k); snd (field_tag k); " "; " "] ++ v ++ eol
   | ISkip k v => [fst (skip_tag k); snd (skip_tag k)] ++ v ++ eol
   | IXX => xx_line eol
+  | ICC t ts => flat_map (fun x => ["C"; "C"] ++ x ++ eol) (t :: ts)
+  | IDT d m y created author =>
+      ["D"; "T"; " "; " "] ++ d ++ ["."] ++ m ++ ["."] ++ y ++ [" "; "("] ++
+      (if created then ["c"; "r"; "e"; "a"; "t"; "e"; "d"] else ["u"; "p"; "d"; "a"; "t"; "e"; "d"]) ++
+      [")"; ";"; " "] ++ author ++ ["."] ++ eol
   | IMatrix po sep syms rows =>
       ["P"; if po then "O" else "0"] ++ flat_map (fun c => sep ++ [c]) syms ++ eol
       ++ flat_map (print_row eol sep) rows
@@ -243,8 +251,24 @@ Definition refline_ok (l : refline) : bool :=
 Definition xref_ok (xref : option str) : bool :=
   match xref with None => true | Some x => field_ok x && no_dot x end.
 
+(* a decimal number that nom's u8 / u16 parser accepts entirely *)
+Definition num_ok (maxv : N) (s : str) : bool :=
+  match uint maxv s with POk _ [] => true | _ => false end.
+
+Definition is_cc (it : item) : bool := match it with ICC _ _ => true | _ => false end.
+
+(* two runs of comment lines are not adjacent (they would be one run) *)
+Fixpoint cc_ok (p : list item) : bool :=
+  match p with
+  | [] => true
+  | it :: t => negb (is_cc it && match t with it' :: _ => is_cc it' | [] => false end) && cc_ok t
+  end.
+
 Definition item_ok (al : alpha) (it : item) : bool :=
   match it with
+  | ICC t ts => forallb (fun x => no_nl x && utf8_valid x) (t :: ts)
+  | IDT d m y _ author =>
+      num_ok 255 d && num_ok 255 m && num_ok 65535 y && no_nl author && utf8_valid author && no_dot author
   | IRef num xref lines => label_ok num && xref_ok xref && forallb refline_ok lines
   | IField _ v => field_ok v
   | ISkip _ v => no_nl v && utf8_valid v
@@ -257,7 +281,7 @@ Definition item_ok (al : alpha) (it : item) : bool :=
       forallb (row_ok (length syms)) rows
   end.
 
-Definition prec_ok (al : alpha) (r : prec) : bool := forallb (item_ok al) r.
+Definition prec_ok (al : alpha) (r : prec) : bool := forallb (item_ok al) r && cc_ok r.
 
 Definition vv_ok (vv : option str) : bool :=
   match vv with None => true | Some v => no_nl v && utf8_valid v end.
